@@ -60,7 +60,12 @@ func VH_C11_PEDigestSec1() {
 
 // H11.pe (two sections) - thorough tier
 func VH_C11_PEDigestSec2_T() {
-	vhDigestArbitrary(vhPEShape(224, 2, 3)) // vh:require accepted rejected
+	b := vhPEShape(224, 2, 2)
+	// FileAlignment: symbolic remainder by a symbolic divisor is slow in every
+	// back end, so the divisor is one of a few representative values
+	fa := uint32(b[64+24+36]) | uint32(b[64+24+37])<<8 | uint32(b[64+24+38])<<16 | uint32(b[64+24+39])<<24
+	vhAssume(fa == 0 || fa == 1 || fa == 2 || fa == 512)
+	vhDigestArbitrary(b) // vh:require accepted rejected
 }
 
 // H11.pe (odd optional header sizes: shorter / longer than the struct)
@@ -68,4 +73,26 @@ func VH_C11_PEDigestOddOpt() {
 	sizes := []int{0, 1, 2, 95, 96, 223, 225, 239, 241}
 	optSize := sizes[vhConcretize(vhInt("optidx", 0, len(sizes)-1), 16)]
 	vhDigestArbitrary(vhPEShape(optSize, 0, 3)) // vh:require rejected
+}
+
+// H11.pe (certificate table walk): checkSignatures on an arbitrary attribute
+// certificate table; the CMS parser is a stub that rejects or accepts each
+// entry arbitrarily.
+func VH_C11_PECertTableWalk() {
+	// vh:stubbed
+	n := vhConcretize(vhInt("len", 0, 26), 32)
+	blob := vhBytes("table", n)
+	vhLoopBound(len(blob) + 8)
+	vhStub("github.com/sassoftware/relic/v8/lib/authenticode.checkSignature", func(der []byte) (*PESignature, error) {
+		if vhBool("cms-rejects") {
+			return nil, errStop
+		}
+		return &PESignature{Indirect: new(SpcIndirectDataContentPe), ImageHashFunc: vhSHA256}, nil
+	})
+	_, err := checkSignatures(blob, nil)
+	if err == nil {
+		vhReach("accepted") // vh:require accepted
+	} else {
+		vhReach("rejected") // vh:require rejected
+	}
 }
